@@ -501,6 +501,58 @@ func C16(c Ctx) *report.Report {
 			rep.Sample(cs.desc())
 		}
 	}
+	// (E) what the relayer built, delivered to the chain: one validator holding all the whitelisted power submits the claim of
+	// an event, so it is final at once; the receiver named by the event must then hold exactly the event's value in the
+	// denom the translation gives (lock: "c" + the lower-cased symbol; burn: the table's denom for the symbol, letter for
+	// letter — IBC denoms carry an upper-case hash), and nobody else anything
+	{
+		e2 := env.NewBridge([]int64{100}, []bool{true}, 3)
+		val2 := e2.ValAddr(0)
+		table := map[string]string{"ATOM": "ibc/FEEDFACE", "erowan": "xrowan", "Weird": "cweird"}
+		for i := 0; i < c.N(40, 400); i++ {
+			ev := genEthEvent(rng, e2)
+			ev.EthereumChainID, ev.Nonce = big.NewInt(1), big.NewInt(int64(1000+i))
+			ev.To = []byte(e2.Users[i%3].Addr.String())
+			ev.Symbol = []string{"ATOM", "ATOM", "erowan", "Weird", "USDC", "usdc", "dash", "eth"}[rng.Intn(8)]
+			if ev.Symbol == "eth" {
+				ev.Token = common.Address{}
+			}
+			ev.Value = new(big.Int).Add(rng.LogUniform(30), big.NewInt(1))
+			cs := runEthEvent(tr, val2, ev)
+			if !cs.OK {
+				rep.Count("chain-delivery.relayer-rejected")
+				continue
+			}
+			want := "c" + strings.ToLower(ev.Symbol)
+			if ev.ClaimType == ethbridgetypes.ClaimType_CLAIM_TYPE_BURN {
+				want = ev.Symbol
+				if t, ok := table[ev.Symbol]; ok {
+					want = t
+				}
+			}
+			ctx0 := e2.Ctx()
+			recv, _ := sdk.AccAddressFromBech32(string(ev.To))
+			before := e2.App.BankKeeper.GetAllBalances(ctx0, recv)
+			m := ethbridgetypes.NewMsgCreateEthBridgeClaim(&cs.Out)
+			res := e2.Tx(e2.Vals[0], &m)
+			after := e2.App.BankKeeper.GetAllBalances(e2.Ctx(), recv)
+			d := cs.desc()
+			d["delivered_code"], d["delivered_log"], d["expected_denom"] = res.Code, trunc(res.Log, 120), want
+			rep.Count("chain-delivery." + okStr(res.Code == 0))
+			if res.Code != 0 {
+				continue
+			}
+			gained := after.Sub(before)
+			wantCoins := sdk.NewCoins(sdk.NewCoin(want, sdk.NewIntFromBigInt(ev.Value)))
+			d["credited"] = gained.String()
+			if !gained.IsEqual(wantCoins) {
+				rep.Violate("C16/chain/credited-differs-from-event", fmt.Sprintf("the event says %s of %q (denom %s); the receiver was credited %s", ev.Value, ev.Symbol, want, gained), d)
+			}
+			if i%6 == 5 {
+				e2.NextBlock()
+			}
+		}
+	}
 	// claim identities: two different events must not share one (the oracle files claims under this id)
 	idOf := func(cs c16EvCase) string {
 		oc, err := ethbridgetypes.CreateOracleClaimFromEthClaim(&cs.Out)
